@@ -97,6 +97,35 @@ Theorem c07_drain_terminates :
       b_end_polls g' <= 1.
 Proof. exact @dec_drain_terminates. Qed.
 
+(* truncation is reported: if a body of data chunks only (any chunking, Pending anywhere) ends
+   plainly and a fresh stream drains to Ready(None) WITHOUT an error, then all events were
+   consumed, every complete frame of the input was delivered in order, and the input is exactly
+   a whole number of frames.  So every plain truncation inside a frame ends with an error
+   (which by the theorems above is final) - including a cut right after the five prefix bytes
+   (finding F-C07e, fixed by 735d8fef). *)
+Theorem c07_truncation_detected :
+  forall (enc msg : Type) (deser : list N -> option msg)
+         (decompress : enc -> list N -> option (list N))
+         (fuel : nat) (evs : list bev) (dir : direction) (encoding : option enc) (max : option N)
+         (trace : list (pres msg)) (d' : dec enc) (evs' : list bev) (g' : bstat),
+    Forall ev_ok evs -> only_dp evs ->
+    drain deser decompress fuel evs (mkB 0) (dec_new dir encoding max) = (trace, Some (d', evs', g')) ->
+    (forall st, ~ In (Item (IErr st)) trace) ->
+    evs' = [] /\
+    Forall2 (fun (f : N * list N) (m : msg) => frame_msg deser decompress encoding f = Some m)
+            (frames (data_of evs)) (oks_of trace) /\
+    data_of evs = concat (map raw (frames (data_of evs))).
+Proof. exact @dec_truncation_detected. Qed.
+
+(* F-C07e (fixed): 00 00 00 00 05 then the end of the body is one Err(INTERNAL), then None -
+   like the same body with one more byte *)
+Example c07_witness_e :
+  obs_decode Request None None [] [BData [0; 0; 0; 0; 5]] 3 2 =
+  Nd [Nd [Nd [Nn 2; Nn 13]; Nd [Nn 3]]; Nn 0; Nd [Nd [Nn 3]; Nd [Nn 3]]; Nn 0] /\
+  obs_decode Request None None [] [BData [0; 0; 0; 0; 5; 1]] 3 0 =
+  Nd [Nd [Nd [Nn 2; Nn 13]; Nd [Nn 3]]; Nn 0; Nd []; Nn 0].
+Proof. split; vm_compute; reflexivity. Qed.
+
 (* ---- non-vacuity / what the objects compute: the witnesses of the fixed findings ---------- *)
 (* the only hypothesis, [Forall ev_ok] (data chunks hold bytes), on a hostile script *)
 Example c07_premises_hold :
@@ -141,3 +170,4 @@ Print Assumptions c07_yields_are_frames_drain.
 Print Assumptions c07_first_error_is_final.
 Print Assumptions c07_first_error_is_final_trace.
 Print Assumptions c07_drain_terminates.
+Print Assumptions c07_truncation_detected.
